@@ -27,6 +27,9 @@ var Props = map[string]*PropSpec{}
 // sequential engine
 
 type seqEngine struct {
+	// script, when set, builds the whole operation list up front (a parameterised scenario skeleton)
+	// instead of generating operations online
+	script     func(rng *simrt.Rng, cfg *Cfg) []Op
 	profile    Profile
 	nontrivial func(out *SeqOutcome) bool
 	saveLoad   bool
@@ -66,6 +69,10 @@ func (e *seqEngine) Run(a *agg, spec *PropSpec, seed uint64) {
 	}
 	rng2 := simrt.NewRng(seed, 11)
 	gen := NewOpGen(&rng2, &sc.Cfg, &e.profile)
+	if e.script != nil {
+		sc.Ops = e.script(&rng2, &sc.Cfg)
+		gen = nil
+	}
 	out := RunSeq(seed, sc, gen, nops, true)
 	a.st.Runs++
 	if a.det {
